@@ -13,6 +13,7 @@ var (
 
 	random  *rand.Rand
 	getRand sync.Once
+	randMtx sync.Mutex
 )
 
 func GetRand() *rand.Rand {
@@ -20,6 +21,24 @@ func GetRand() *rand.Rand {
 		random = rand.New(rand.NewSource(time.Now().UnixNano()))
 	})
 	return random
+}
+
+// RandFloat64 returns a pseudo-random number in [0.0,1.0) from the shared generator.
+// The generator is not safe for concurrent use, so the call is serialized.
+func RandFloat64() float64 {
+	r := GetRand()
+	randMtx.Lock()
+	defer randMtx.Unlock()
+	return r.Float64()
+}
+
+// RandInt63n returns a pseudo-random number in [0,n) from the shared generator.
+// The generator is not safe for concurrent use, so the call is serialized.
+func RandInt63n(n int64) int64 {
+	r := GetRand()
+	randMtx.Lock()
+	defer randMtx.Unlock()
+	return r.Int63n(n)
 }
 
 func GetLocation(timezone string) (*time.Location, error) {
